@@ -6,6 +6,7 @@ import (
 
 	"github.com/aperturerobotics/util/backoff"
 	"github.com/aperturerobotics/util/broadcast"
+	"github.com/aperturerobotics/util/verifhook"
 	cbackoff "github.com/cenkalti/backoff/v4"
 	"github.com/sirupsen/logrus"
 )
@@ -292,6 +293,7 @@ func (r *runningRoutine) execute(
 	waitCh <-chan struct{},
 ) {
 	var err error
+	verifhook.Point("exec-start", r)
 	if waitCh != nil {
 		select {
 		case <-ctx.Done():
